@@ -9,9 +9,11 @@ import sys
 
 from sexp import A, Atom, parse, render
 from props.common import in_cfg, op, tree_distribution
-from gen import STD_REGISTRY, reg_lines
+from gen import STD_REGISTRY, reg_lines, relabel_leaves, vary_dicts
 
 RULE = ('treespecs from random pytrees (all kinds, custom nodes with entries, both none_is_leaf, all namespaces, both '
+        'dict-order modes; 30% are records: copies of one sub-tree whose dicts share key sets but differ in insertion order / '
+        'kind / maxlen) - '
         'dict-order modes) x pickle protocols 0-5 + copy / deepcopy; a sample is also loaded in a fresh interpreter '
         'with the same / a missing / a re-registered registration; distinct by request text; non-trivial = internal node')
 EXTRA_TRUST = ['pickle byte streams, copy/deepcopy plumbing and the second interpreter are exercised by the '
@@ -40,6 +42,13 @@ def generate(gen, tier):
     for i in range(n):
         t = gen.tree(depth=rng.choice([2, 3, 3]), width=rng.choice([3, 4]),
                      weights=[2, 2, 4, 3, 3, 2, 2, 1, 5, 1, 2])
+        if rng.random() < 0.3:
+            # "records": several copies of one sub-tree whose dicts share key sets but differ in insertion order / dict kind /
+            # maxlen, so per-node information that == does not compare (original key order ...) differs between equal nodes
+            base = gen.tree(depth=2, width=3, weights=[0, 0, 1, 1, 6, 2, 3, 1, 2, 0, 1], leaf_p=0.0)
+            copies = [vary_dicts(gen, relabel_leaves(gen, base), p_kind=0.2, p_order=0.9) for _ in range(rng.choice([2, 3, 4]))]
+            t = [A(rng.choice(['l', 'T'])), *copies] if rng.random() < 0.7 else \
+                [A('O'), *[[k, c] for k, c in zip(gen.keyset(len(copies), 'str'), copies)]]
         cfg = gen.cfg(pred=rng.choice([0, 0, 0, 2, 6]))
         s = [A('structure'), cfg, t]
         lines = [op('spec', [A('pickle'), s]), op('eq', [A('pickle'), s], s), op('hash_eq', [A('pickle'), s], s),
